@@ -1,4 +1,4 @@
 From Coq Require Import Extraction ExtrOcamlBasic.
 From OV Require Import Common.Base C03.Model.
 Extraction Language OCaml.
-Extraction "C03_model.ml" N.add Z.add init step run mon_run mon0 service fstate_num holds_nothing.
+Extraction "C03_model.ml" N.add Z.add init step run mon_run mon0 service fstate_num holds_nothing radius_decide aaa_allowed.
